@@ -9,7 +9,7 @@ for d in $ROOT/*/out/*; do
   id=$(basename $(dirname $(dirname $d))); k=$(basename $d)
   tag=${id}_${k}
   if [ -n "$1" ] && ! echo " $* " | grep -q " $id "; then continue; fi
-  [ -f work/seeds/$tag.confirm.json ] || tools/confirm_seed.sh $d work/seeds/$tag.confirm.json
+  [ -f work/seeds/$tag.confirm.json ] || tools/confirm_seed.sh $d /verif/work/seeds/$tag.confirm.json
   props=$id
   case $id in
     C01) props="C01 C10 C08";; C08) props="C08 C10 C15 C02";; C09) props="C09 C01 C10";; C10) props="C10 C01 C08";;
